@@ -47,9 +47,26 @@ def _decode_print(line):
     return tag, json.loads(payload)
 
 
-def run(module, cfg=None, *, workdir, env=None, workers=16, heap="2g", timeout=900,
-        simulate=None, depth=None, seed=None, coverage=False, deadlock=False,
-        extra=(), on_line=None, allow_violation=False, dfid=None):
+def run(module, cfg=None, **kw):
+    """run TLC; an internal TLC failure that is not a property violation ("TLC threw an unexpected exception", seen once in a
+    fresh sandbox on a run that had finished its search) is retried with fewer workers before it counts as a machinery failure"""
+    try:
+        return _run(module, cfg, **kw)
+    except TlcError as e:
+        if "unexpected exception" not in str(e) and "rc=255" not in str(e):
+            raise
+        first = str(e)
+    for w in (4, 1):
+        try:
+            return _run(module, cfg, **dict(kw, workers=w))
+        except TlcError as e:
+            last = str(e)
+    raise TlcError("TLC failed three times (16, 4 and 1 workers) on %s\n--- first failure\n%s\n--- last failure\n%s" % (module, first[:3000], last[:3000]))
+
+
+def _run(module, cfg=None, *, workdir, env=None, workers=16, heap="2g", timeout=900,
+         simulate=None, depth=None, seed=None, coverage=False, deadlock=False,
+         extra=(), on_line=None, allow_violation=False, dfid=None):
     """Run TLC on spec/<module>.tla with spec/<cfg>; returns a TlcResult.
 
     workdir: scratch directory (metadir and states live there; caller removes it).
@@ -87,6 +104,7 @@ def run(module, cfg=None, *, workdir, env=None, workers=16, heap="2g", timeout=9
                          stderr=subprocess.STDOUT, text=True, errors="replace")
     tail = []
     errors = []
+    grab = 0
     in_trace = False
     trace_lines = []
     try:
@@ -129,6 +147,10 @@ def run(module, cfg=None, *, workdir, env=None, workers=16, heap="2g", timeout=9
                 trace_lines.append(line)
             elif line.startswith("Error:") or "Exception" in line and "at tlc2" not in line:
                 errors.append(line)
+                grab = 3
+            elif errors and grab > 0:
+                errors.append("    " + line[:400])      # the lines after an error line carry its message
+                grab -= 1
             m = re.match(r"^<(\w+) line \d+, col \d+ to line \d+, col \d+ of module (\w+)>: (\d+):(\d+)", line)
             if m:
                 res.coverage[m.group(1)] = (int(m.group(3)), int(m.group(4)))
